@@ -195,6 +195,8 @@ func (s *objectStore) createOrUpdate(condition *proxyv1alpha1.RateLimitCondition
 			latest, err := s.gatewayClient.ProxyV1alpha1().RateLimitConditions().Get(context.Background(), condition.Name, v1.GetOptions{ResourceVersion: "0"})
 			if err == nil {
 				item = latest
+				// the labels are part of what is being saved (the cleanup selects conditions by them)
+				item.Labels = condition.Labels
 				item.Spec = condition.Spec
 				item.Status = condition.Status
 			}
